@@ -31,6 +31,9 @@ type c16Case struct {
 	// Shape: how the expression reaches the operand leaf: "" = by its name; "prefixed" = gm:z; "nested" = h/z and
 	// "nested2" = h/g/z with the leaf inside containers; "nested-prefixed" = gm:h/gm:z
 	Shape string `json:"shape,omitempty"`
+	// Own (uses-when, augment-when): the guarded leaf y2 / y also states a when of its own, "w='on'", and w holds "on"
+	// (Own = "holds") or "off" (Own = "fails"): a node is there when both conditions hold
+	Own string `json:"own,omitempty"`
 }
 
 func c16Type(base string) *dm.Type {
@@ -233,14 +236,25 @@ func c16Run(c c16Case, o *hx.Obs) {
 			delete(want, "y")
 		}
 	case "uses-when":
-		m.Extra = "grouping g { leaf y { type string; } leaf y2 { type string; } } uses g { when " + dm.QuoteYang(expr) + "; }"
-		m.Top = []*dm.Node{zLeaf(), str("out")}
+		own := ""
+		if c.Own != "" {
+			own = " when \"w='on'\";"
+		}
+		m.Extra = "grouping g { leaf y { type string; } leaf y2 {" + own + " type string; } } uses g { when " + dm.QuoteYang(expr) + "; }"
+		m.Top = []*dm.Node{zLeaf(), str("out"), str("w")}
 		data["y"], data["y2"], data["out"] = "guarded", "g2", "x"
+		data["w"] = map[string]string{"": "on", "holds": "on", "fails": "off"}[c.Own]
 		setZ(data, 0)
 		want = dm.CloneTree(data)
 		if !holds[0] {
 			delete(want, "y")
 			delete(want, "y2")
+		}
+		if c.Own == "fails" {
+			delete(want, "y2")
+		}
+		if c.Own != "" {
+			o.Class("the guarded node has a when of its own that %s", c.Own)
 		}
 	case "augment-when":
 		m.Top = []*dm.Node{{Kind: "container", Name: "c", Children: []*dm.Node{zLeaf(), str("out")}}}
@@ -505,6 +519,9 @@ func c16Gen(t *rapid.T) c16Case {
 	c := c16Case{Base: rapid.SampledFrom(c16Bases).Draw(t, "base"), Placement: rapid.SampledFrom([]string{"container-when", "leaf-when", "list-when", "list-when-where", "uses-when", "augment-when", "where", "where", "filter"}).Draw(t, "placement"),
 		Edit: rapid.IntRange(0, 3).Draw(t, "edit") == 0, Spaces: rapid.Bool().Draw(t, "spaces"), Quoted: rapid.IntRange(0, 3).Draw(t, "quoted") == 0,
 		Shape: rapid.SampledFrom([]string{"", "", "", "nested", "nested2"}).Draw(t, "shape")}
+	if c.Placement == "uses-when" && !c.Edit {
+		c.Own = rapid.SampledFrom([]string{"", "holds", "fails"}).Draw(t, "own-when")
+	}
 	ops := []string{"=", "!=", "<", "<=", ">", ">="}
 	if c.Base == "boolean" || c.Base == "string" {
 		ops = []string{"=", "!="}
